@@ -621,6 +621,7 @@ func TestVerifC20(t *testing.T) {
 		CheckRedirect: func(*http.Request, []*http.Request) error { return http.ErrUseLastResponse },
 		Timeout:       20 * time.Second,
 	}
+	slowGraces, reruns := 0, 0
 	send := func(s reqSpec, via, phase string) c20Record {
 		rec := c20Record{T: "req", Via: via, Phase: phase, Route: -1, Path: s.path, Method: s.method, Reg: s.reg,
 			Variant: s.v.ID, AccEnc: s.ae, Origin: s.og}
@@ -651,7 +652,11 @@ func TestVerifC20(t *testing.T) {
 					return false
 				case <-tick.C:
 					if grace == nil && atomic.LoadInt64(&c20HandlerEntries) != h0 {
-						if phase == "deny" {
+						if phase == "deny" && slowGraces < 20 {
+							// a request that must be rejected entered a handler: give it time to show what it
+							// does (database, insert services); only for the first few, a broken tree lets
+							// thousands through
+							slowGraces++
 							grace = time.After(150 * time.Millisecond)
 						} else {
 							grace = time.After(5 * time.Millisecond)
@@ -783,7 +788,8 @@ func TestVerifC20(t *testing.T) {
 			rec := send(s, via, phase)
 			// a database connection seen during a request that must be rejected: re-run the same request alone
 			// three times, it counts only if it shows up every time (the reporter applies the rule)
-			if phase == "deny" && rec.DDB > 0 {
+			if phase == "deny" && rec.DDB > 0 && reruns < 5 {
+				reruns++
 				for i := 0; i < 3; i++ {
 					time.Sleep(50 * time.Millisecond)
 					again := send(s, via, phase)
